@@ -32,17 +32,6 @@ LEVEL_NOTE = ""
 
 META = "()[],:;"
 
-def _glue_eof(case):
-    """known finding C01-glue-eof-at-buffer-multiple: text length a multiple of the 4096-byte bufio buffer"""
-    if case.get("kind") != "ORACLE" or not case.get("fields"):
-        return False
-    if "utils.ReadMultiTrees rejects the writer's output: EOF" not in case["fields"][0]:
-        return False
-    obs = parse_sexp(case.get("obs") or "()")
-    txt = alist(obs).get("text")
-    return isinstance(txt, str) and len(txt.encode("utf-8", "surrogateescape")) % 4096 == 0
-
-MATCHERS = {"C01-glue-eof-at-buffer-multiple": _glue_eof}
 
 def fdec(x):
     """exact decimal text of a dyadic Fraction"""
